@@ -783,3 +783,21 @@ func (w *world) corruptInit(o *grpcgcp.GCPMultiEndpointOptions, kind string) boo
 	}
 	return true
 }
+
+// Dial connects to the in-memory endpoint `target` (for other engines).
+func Dial(ctx context.Context, target string, dopts ...grpc.DialOption) (*grpc.ClientConn, error) {
+	e := endpoints()[target]
+	if e == nil {
+		return nil, fmt.Errorf("unknown endpoint %q", target)
+	}
+	dopts = append(dopts, grpc.WithContextDialer(e.dial), grpc.WithTransportCredentials(insecure.NewCredentials()),
+		grpc.WithConnectParams(grpc.ConnectParams{Backoff: backoff.Config{BaseDelay: 2 * time.Millisecond, Multiplier: 1, MaxDelay: 2 * time.Millisecond}, MinConnectTimeout: 50 * time.Millisecond}))
+	return grpc.Dial("passthrough:///"+target, dopts...)
+}
+
+// SetUp makes an in-memory endpoint reachable or not (closing its live connections).
+func SetUp(target string, up bool) {
+	if e := endpoints()[target]; e != nil {
+		e.set(up)
+	}
+}
